@@ -17,6 +17,11 @@ Ops     : ('pinv',)       t := t.pseudoinverse()            -- model: forward an
                                                                 the operand is accepted is C03's question)
           ('pinv_vec',)    query: VInvertible.pseudoinverse_vector
           ('tc_pair',)     query: image_coords_to_tcoords(shape) inverts tcoords_to_image_coords(shape)
+          ('refuse', kind) query: a call the tree legitimately refuses (apply with the wrong dimension / outside the PWA
+                           domain, pseudoinverse_vector with a wrong-size or a SINGULAR vector, compose in place with a
+                           foreign transform, set_target / constructor with mismatched landmarks): it raises, receiver and
+                           arguments are observed unchanged, the retry raises the same exception, kept relatives intact;
+                           all refused calls are also replayed on the live object before every pinv / retarget / compose
           ('apply_forms',) query: probe points handed to apply() as int64/int32/float32/read-only/strided/Fortran arrays
 Roots   : besides the parameter letters, 'argument form' letters (root suffix ('form', coordinate form, source container,
           target container)): one representative letter per class x every dtype / sequence / view / container form that
@@ -854,11 +859,14 @@ class C04(Check):
         return (st["n_inv"] % 2, st["n_ret"], st["n_comp"], bool(st.get("warm")), obs_key(observe(st["t"])))
 
     def is_query(self, op):
-        return op[0] in ("pinv_vec", "tc_pair", "apply_forms")
+        return op[0] in ("pinv_vec", "tc_pair", "apply_forms", "refuse")
 
     # ------------------------------------------------------------------ alphabet
     def ops(self, st, level):
         out = []
+        if st["n_comp"] == 0:
+            # refused calls first: the valid ops below then run on the very object that has seen them
+            out += [("refuse", k) for k in self._refusal_kinds(st)]
         if st["fam"] in ("H", "A", "TC"):
             out.append(("pinv_vec",))
         if st["fam"] == "TC" and st["n_inv"] == 0:
@@ -1051,6 +1059,12 @@ class C04(Check):
         np.random.seed(12345)  # Rotation._axis_and_angle_of_rotation_3d draws from the global stream
         TAG_SUFFIX[0] = " [float32 letter]" if st.get("tolx", 1.0) > 1 else ""
         kind = op[0]
+        if kind == "refuse":
+            return self._op_refuse(st, op, verify)
+        if kind in ("pinv", "retarget", "compose"):
+            # every valid state-changing op is preceded by all refused calls this object knows (d): on the
+            # unchanged tree they leave no trace, so the op must behave as on an object that never saw them
+            self._exercise_refusals(st)
         if kind == "pinv":
             return self._op_pinv(st, verify)
         if kind == "retarget":
@@ -1387,6 +1401,123 @@ class C04(Check):
             return [Failure(st["cls"], "input-map-differs-from-model", "after compose_%s_inplace(%s) [%s] on %r: max error %.3g" % (side, name, "accepted" if accepted else "refused", st["root"], e))]
         return self._check_kept(st, "compose_%s_inplace(%s)" % (side, name))
 
+    # ------------------------------------------------------------------ refused calls
+    # calls the unchanged tree legitimately refuses; one letter per refusal kind the anchored code distinguishes
+    WRONG_SIZE_NOT_REFUSED = ("UniformScale", "NonUniformScale")  # accept vectors of any length (C05's question)
+
+    def _singular_vector(self, st):
+        """a correctly sized parameter vector describing a SINGULAR member of the class (None if there is none)"""
+        import menpo.transform as mt
+
+        t, d = st["t"], st["d"]
+        Hs = np.eye(d + 1)
+        Hs[d - 1, d - 1] = 0.0  # rank d linear block ... of rank d - 1
+        Hs[:d, d] = [1.0, 2.0, 0.5, 0.25][:d]
+        if type(t) is mt.Homogeneous:
+            return Hs.ravel()
+        if isinstance(t, mt.Similarity) and not isinstance(t, (mt.Rotation, mt.UniformScale, mt.Translation)):
+            return np.array([-1.0, 0.0, 1.0, 2.0]) if d == 2 else None  # a = k cos - 1 = -1, b = 0: scale 0
+        if isinstance(t, mt.Affine) and not isinstance(t, (mt.Similarity, mt.NonUniformScale)):
+            return (Hs - np.eye(d + 1))[:d, :].ravel(order="F")  # documented parametrisation: deltas from the identity
+        return None
+
+    def _refusal_kinds(self, st):
+        import menpo.transform as mt
+
+        t = st["t"]
+        kinds = ["apply-wrong-dims"]
+        if st["fam"] in ("H", "A", "TC"):
+            vectorizable = not ((isinstance(t, mt.Rotation) and st["d"] == 2) or (isinstance(t, mt.Similarity) and not isinstance(t, (mt.Rotation, mt.UniformScale, mt.Translation)) and st["d"] == 3))
+            if vectorizable and type(t).__name__ not in self.WRONG_SIZE_NOT_REFUSED:
+                kinds.append("vector-wrong-size")
+            if self._singular_vector(st) is not None:
+                kinds.append("vector-singular")
+            if st["d"] in (2, 3):
+                kinds.append("compose-foreign-operand")
+        if st["fam"] in ("A", "PWA", "TPS"):
+            kinds += ["target-wrong-count", "target-wrong-dims", "constructor-mismatched-landmarks"]
+        if st["fam"] == "PWA":
+            kinds.append("apply-outside-domain")
+        return kinds
+
+    def _refusal(self, st, kind):
+        """(thunk performing the refused call, objects handed to it) - fresh arguments every time"""
+        import menpo.transform as mt
+        from menpo.shape import PointCloud
+
+        t, d = st["t"], st["d"]
+        if kind == "apply-wrong-dims":
+            X = np.ones((3, d + 1)) * [[1.0], [2.0], [3.0]]
+            return (lambda: t.apply(X)), [X]
+        if kind == "vector-wrong-size":
+            v = np.zeros(len(t.as_vector()) + 1)
+            return (lambda: t.pseudoinverse_vector(v)), [v]
+        if kind == "vector-singular":
+            v = self._singular_vector(st)
+            return (lambda: t.pseudoinverse_vector(v)), [v]
+        if kind == "compose-foreign-operand":
+            arg = mt.WithDims(list(range(d)))  # a Transform outside the homogeneous family
+            return (lambda: t.compose_before_inplace(arg)), []
+        if kind in ("target-wrong-count", "target-wrong-dims", "constructor-mismatched-landmarks"):
+            n = st["src"].shape[0]
+            shape = (n, d + 1) if kind == "target-wrong-dims" else (n + 1, d)
+            pc = PointCloud(1.0 + np.arange(shape[0] * shape[1], dtype=float).reshape(shape) * 0.37)
+            if kind == "constructor-mismatched-landmarks":
+                return (lambda: type(t)(t.source, pc)), [pc, t.source]
+            return (lambda: t.set_target(pc)), [pc]
+        if kind == "apply-outside-domain":
+            X = np.vstack([st["src"][st["trilist"][0]].mean(axis=0), [100.0, 100.0]])  # one point inside, one far outside
+            return (lambda: t.apply(X)), [X]
+        raise HarnessError(kind)
+
+    def _exercise_refusals(self, st):
+        if st["fam"] not in ("H", "A", "TC", "PWA", "TPS"):
+            return
+        for kind in self._refusal_kinds(st):
+            if kind == "constructor-mismatched-landmarks":
+                continue
+            call, _args = self._refusal(st, kind)
+            try:
+                call()
+            except Exception:  # noqa - judged by the 'refuse' op; here the call only has to have happened
+                pass
+
+    def _op_refuse(self, st, op, verify):
+        kind = op[1]
+        t, cls = st["t"], st["cls"]
+        call, args = self._refusal(st, kind)
+        if not verify:
+            try:
+                call()
+            except Exception:  # noqa
+                pass
+            return []
+        before = [observe(t)] + [observe(a) for a in args]
+        fails = []
+        seen = []
+        for attempt in ("call", "retry"):
+            try:
+                got = call()
+                seen.append(None)
+                fails.append(Failure(cls, "refusal-%s-not-refused" % kind, "%s of the refused call returned %r for root %r" % (attempt, type(got).__name__, st["root"])))
+                break
+            except Exception as e:  # noqa - (a): any exception is a refusal; the type must be stable (c)
+                seen.append(type(e).__name__)
+            after = [observe(t)] + [observe(a) for a in args]
+            for who, b, a in zip(["receiver"] + ["argument %d" % i for i in range(len(args))], before, after):
+                dd = obs_diff(b, a)
+                if dd is not None:
+                    fails.append(Failure(cls, "refused-call-changed-state", "%s (%s, raised %s) changed the %s of root %r after %d inversion(s): %s" % (kind, attempt, seen[-1], who, st["root"], st["n_inv"], dd)))
+            if fails:
+                break
+        if not fails and seen[0] != seen[1]:
+            fails.append(Failure(cls, "refusal-not-repeatable", "%s raised %s, the retry %s" % (kind, seen[0], seen[1])))
+        if not fails:
+            fails.extend(self._check_kept(st, "the refused call %s" % kind))
+        if not fails:
+            self.note("refuse:%s:%s" % (kind, seen[0]))
+        return fails
+
     def _op_pinv_vec(self, st):
         """VInvertible.pseudoinverse_vector(v): the parameter vector of the inverse of from_vector(v)"""
         t = st["t"]
@@ -1567,6 +1698,9 @@ class C04(Check):
         for f in self.PROBE_FORMS:
             if not notes.get("apply_forms:%s" % f):
                 out.append("probe points in form %s never applied" % f)
+        for k in ("apply-wrong-dims", "vector-wrong-size", "vector-singular", "compose-foreign-operand", "target-wrong-count", "target-wrong-dims", "constructor-mismatched-landmarks", "apply-outside-domain"):
+            if not any(n.startswith("refuse:%s:" % k) for n in notes):
+                out.append("refusal kind %s never produced a refusal" % k)
         for c in IDENTITY_CLASSES:
             if not notes.get("boundary:identity:%s" % c):
                 out.append("identity letter of %s never exercised" % c)
@@ -1609,6 +1743,7 @@ class C04(Check):
             "forms excluded because the unchanged tree mishandles them for reasons outside C04 (reported): " + "; ".join("%s with %s (%s)" % (k[0], k[1], v) for k, v in sorted(FORM_EXCLUDED.items())),
             "boundary letters: Homogeneous with a zero bottom-right entry and / or a singular linear block (well conditioned as a whole: the inverse then has a zero corner), identities built by init_identity, uniform scales 1e-5 / 1e5, equal non-uniform scales, rotations by 180 / 360 degrees, Homogeneous in 1-D and 4-D, the smallest landmark sets each alignment accepts (Rotation / Translation 1 point, Similarity / UniformScale 2 points, Affine n_dims+1), target == source, a one-triangle PWA, TPS with 3 landmarks and with target == source, apply() on a single point and on an empty point set; probe points are chosen away from the horizon of projective maps (|v.x+w| >= 0.2 (|v|.|x|+|w|))",
             "not letters (the unchanged tree refuses or the input is singular): AlignmentAffine / AlignmentSimilarity / AlignmentUniformScale with 1 point (LinAlgError), AlignmentAffine with fewer than n_dims+1 points (under-determined: singular normal equations are solved without an error), UniformScale(0), tcoords for an image side of 1 pixel",
+            "refused-call letters: any exception counts as the refusal (the property names no type), its type must be the same on retry; not letters because the unchanged tree does not refuse them: pseudoinverse_vector with a wrong-size vector on UniformScale / NonUniformScale (accepted, C05's question), UniformScale / NonUniformScale vectors holding a zero (inverse holds inf, no exception)",
             "singular / ill-conditioned parameter values, folding PWA targets, collinear or coincident landmarks are outside the quantifier and are not enumerated",
         ]
 
